@@ -66,7 +66,61 @@ def replay_load_model(obligation: str = "", model: Optional[Dict[str, str]] = No
             if entries:
                 return {"confirmed": True, "input": {"cache_model": True, "fault": "pickle.dump fails half way"},
                         "observed": f"a partially written shared cache entry exists: {entries}"}
-            res2, err2 = run.load_model(MODEL, cache_model=True)
+            # (2b) what another run (or the next run after a crash) sees the instant the entry gets its shared name
+            seen_at_rename: List[str] = []
+            real_rename = pathlib.Path.rename
+
+            def observing_rename(self: pathlib.Path, target: Any) -> Any:
+                r = real_rename(self, target)
+                try:
+                    with open(target, "rb") as f2:
+                        pickle.load(f2)
+                except BaseException as e:  # noqa
+                    seen_at_rename.append(f"{type(e).__name__}: {e}")
+                return r
+
+            # a model whose pickle ends in a chunk shorter than the file buffer (such a tail stays buffered until
+            # the file is closed): found by padding the model with a comment
+            padded = None
+            base_text = MODEL.read_text(encoding="utf-8")
+            for pad in range(15000, 40000, 150):
+                cand = base_text + "\n# " + "x" * pad + "\n"
+                cand_path = pathlib.Path(d) / "padded_model.py"
+                cand_path.write_text(cand, encoding="utf-8")
+                rr, ee = run.load_model(cand_path, cache_model=False)
+                if ee is not None or rr is None:
+                    break
+
+                class _W:
+                    def __init__(self) -> None:
+                        self.sizes: List[int] = []
+
+                    def write(self, b: bytes) -> int:
+                        self.sizes.append(len(b))
+                        return len(b)
+
+                w = _W()
+                real_dump(run._Cached(symbol_table=rr[0], atok=rr[1]), w)
+                if len(w.sizes) > 1 and 0 < w.sizes[-1] < 1024:
+                    padded = cand_path
+                    break
+            pathlib.Path.rename = observing_rename  # type: ignore
+            try:
+                if padded is not None:
+                    run.load_model(padded, cache_model=True)
+                res2, err2 = run.load_model(MODEL, cache_model=True)
+            finally:
+                pathlib.Path.rename = real_rename  # type: ignore
+            if padded is not None:
+                for f in _listing(pathlib.Path(d)):
+                    if f.endswith(".pickle"):
+                        os.unlink(os.path.join(d, f))
+                padded.unlink()
+                res2, err2 = run.load_model(MODEL, cache_model=True)
+            if seen_at_rename:
+                return {"confirmed": True, "input": {"cache_model": True, "schedule": "a second run (or a crash) right "
+                                                     "after the rename to the shared name"},
+                        "observed": f"the shared entry is not a complete pickle at that instant: {seen_at_rename[0]}"}
             entries = [f for f in _listing(pathlib.Path(d)) if f.endswith(".pickle")]
             if len(entries) != 1:
                 return {"confirmed": True, "input": {"cache_model": True}, "observed": f"cache entries after a completed run: {entries}"}
@@ -87,3 +141,85 @@ def replay_load_model(obligation: str = "", model: Optional[Dict[str, str]] = No
     finally:
         tempfile.tempdir = old_tmp
     return {"confirmed": False}
+
+
+def _plural(stem: str) -> str:
+    return stem[:-1] + "ies" if stem.endswith("y") else stem + "s"
+
+
+def _id_set_problems(root: Any, label: str) -> List[str]:
+    """Every ``*_id_set`` attribute of every object reachable from ``root`` equals the ids of its list."""
+    problems: List[str] = []
+    seen = set()
+    stack = [root]
+    while stack:
+        o = stack.pop()
+        if id(o) in seen or isinstance(o, (str, int, float, bool, bytes, type(None))):
+            continue
+        seen.add(id(o))
+        if isinstance(o, (list, tuple, set, frozenset)):
+            stack.extend(o)
+            continue
+        if isinstance(o, dict):
+            stack.extend(o.values())
+            continue
+        d = getattr(o, "__dict__", None)
+        if not isinstance(d, dict) or type(o).__module__.startswith(("ast", "asttokens", "_ast")):
+            continue
+        for k, v in d.items():
+            if k.endswith("_id_set"):
+                src = _plural(k[: -len("_id_set")])
+                if src in d:
+                    if v != frozenset(id(x) for x in d[src]):
+                        problems.append(f"{label}: {type(o).__name__} {getattr(o, 'name', '?')}.{k} != ids of .{src}")
+                else:
+                    problems.append(f"{label}: {type(o).__name__}.{k} has no list attribute {src}")
+            stack.append(v)
+    return problems
+
+
+def pickle_roundtrip(seed: int = 0, max_classes: int = 3, with_big_model: bool = False, **_: Any) -> Dict[str, Any]:
+    """Bounded: every accepted hierarchy of the C05 generator (<= max_classes classes, 3-level chains and diamonds
+    included) is pickled and unpickled; the id-set invariants hold on the copy and every subclass query agrees."""
+    import itertools
+    from aas_core_codegen import intermediate
+    from native import c05
+    cases = accepted = 0
+    failures: List[Dict[str, Any]] = []
+    texts: List[str] = []
+    for n in range(1, max_classes + 1):
+        for shape in c05.shapes(n):
+            names = ["A", "B", "C", "D", "E"][:n]
+            abstract = [any(k in ps for ps in shape) for k in range(n)]
+            for methods in (True, False):
+                texts.append(c05.render(shape, names, abstract, [True if not shape[k] else None for k in range(n)],
+                                        methods))
+    # the recorded meta-models (enumerations, constrained primitives, interfaces, ...); the big one only if asked
+    recorded = sorted((REPO / "dev" / "test_data" / "intermediate" / "expected").glob("**/meta_model.py"))
+    recorded += sorted(p for p in (REPO / "dev" / "test_data" / "common_meta_models").glob("*.py")
+                       if with_big_model or p.stat().st_size < 50000)
+    texts.extend(p.read_text(encoding="utf-8") for p in recorded)
+    for text in texts:
+        cases += 1
+        st, why = c05.translate(text)
+        if st is None:
+            continue
+        accepted += 1
+        bad = _id_set_problems(st, "original")
+        copy = pickle.loads(pickle.dumps(st))
+        bad += _id_set_problems(copy, "unpickled")
+        orig_cls = [c for c in st.our_types if isinstance(c, intermediate.Class)]
+        copy_cls = [c for c in copy.our_types if isinstance(c, intermediate.Class)]
+        if [c.name for c in orig_cls] != [c.name for c in copy_cls]:
+            bad.append("class lists differ")
+        else:
+            for (a, a2), (b, b2) in itertools.product(zip(orig_cls, copy_cls), repeat=2):
+                if a.is_subclass_of(b) != a2.is_subclass_of(b2):
+                    bad.append(f"unpickled: {a.name}.is_subclass_of({b.name}) = {a2.is_subclass_of(b2)}, "
+                               f"original {a.is_subclass_of(b)}")
+        if bad and len(failures) < 3:
+            failures.append({"meta_model": text[:3000], "observed": bad[:4]})
+    if accepted == 0:
+        failures.append({"observed": "no generated meta-model was accepted"})
+    return {"cases": cases, "distinct": accepted, "failures": failures, "exhaustive": True,
+            "samples": [{"accepted": accepted, "recorded_models": len(recorded)}]}
